@@ -17,7 +17,16 @@ def main():
     if a.replay:
         sys.exit(run.replay_file(a.replay))
     harness = a.prop.lower()
-    sys.exit(run.main(harness, a.tier, seed, a.jobs))
+    try:
+        rc = run.main(harness, a.tier, seed, a.jobs)
+    except SystemExit:
+        raise
+    except BaseException as e:      # noqa: BLE001 - a harness error is never a pass and never a violation
+        import traceback
+        traceback.print_exc()
+        print("INCONCLUSIVE: harness error before/while exploring: %s: %s" % (type(e).__name__, e), flush=True)
+        rc = 3
+    sys.exit(rc)
 
 
 if __name__ == "__main__":
